@@ -116,6 +116,12 @@ pub fn conforming(env: &Env, t: &AType, r: &mut Rng, depth: usize) -> Option<RV>
             }
         }
         AType::Box(x) => conforming(env, x, r, depth + 1)?,
+        // the language treats `vec<u8>` as a byte string (the code generator maps it to `Bytes`,
+        // whose wire kind and introspection are those of `bytes`), not as a sequence of u8 values
+        AType::Vec(x) if **x == AType::U8 => {
+            let n = r.below(6);
+            RV::Bytes(r.bytes(n))
+        }
         AType::Vec(x) => {
             let n = if depth > 4 { 0 } else { r.below(3) };
             let mut v = Vec::new();
